@@ -332,13 +332,41 @@ class NP:
             start, stop, step = args
         # exact-arithmetic length ceil((stop-start)/step); must be concrete
         q = z3.simplify((lift(stop) - lift(start)) / lift(step), som=True)
-        if not z3.is_rational_value(q):
-            raise HarnessError(f"arange with symbolic length {q}")
-        n = math.ceil(q.numerator_as_long() / q.denominator_as_long())
+        if z3.is_rational_value(q):
+            n = math.ceil(q.numerator_as_long() / q.denominator_as_long())
+        else:
+            n = self._arange_len(lift(start), lift(stop), lift(step), q)
         out = rnp.empty(max(n, 0), dtype=object)
         for i in range(n):
             out[i] = start + i * step
         return out
+
+    @staticmethod
+    def _arange_len(start, stop, step, q):
+        """length of arange when (stop-start)/step is a constant although its parts are symbolic
+        (e.g. n*dk/dk): candidate from a numeric sample, then PROVED under the path condition"""
+        from . import sym as _sym
+
+        p = _sym.cur()
+        s = z3.Solver()
+        s.set("timeout", 5000)
+        s.add(p.solver.assertions())
+        s.add(theory.PI_FACTS)
+        cand = None
+        if str(s.check()) == "sat":
+            m = s.model()
+            v = m.eval(q, model_completion=True)
+            try:
+                f = float(v.as_fraction()) if z3.is_rational_value(v) else float(v.approx(20).as_fraction())
+                cand = round(f)
+            except Exception:
+                cand = None
+        if cand is None or cand < 0:
+            raise HarnessError(f"arange with symbolic length {q}")
+        s.add(z3.Not(z3.And(step != 0, stop - start == cand * step)))
+        if str(s.check()) != "unsat":
+            raise HarnessError(f"arange: could not prove constant length {cand} for {q}")
+        return int(cand)
 
     # ---- predicates (eager: symbolic element decisions fork the path)
     def isclose(self, a, b, rtol=1e-5, atol=1e-8, equal_nan=False):
